@@ -416,6 +416,11 @@ def run_case(case, ctx):
             if mode == 'euler' and not vec and rnd.random() < 0.3:
                 kw['backend'] = 'torch'
                 mech['torch_euler_runs'] = 1
+            # the scipy method may be named explicitly (keyword handed through run to the solver): the delayed terms must still read the
+            # computed trajectory
+            if mode == 'scipy' and rnd.random() < 0.5:
+                kw['method'] = rnd.choice(['RK45', 'DOP853', 'RK23'])
+                mech['scipy_runs_with_method_keyword'] = 1
             try:
                 df = observe.run_model(spec, T=T, dt=dt, solver=mode, outputs=outputs, vectorize=vec, **kw)
             except Exception as e:
